@@ -151,10 +151,34 @@ fn add_checked(e: &Entry, v: u32, ty: &Ty, sv: &mut SerializedValues, ctx: &mut 
         }
     }
     check_count(sv, "after add_value", ctx);
+    // the legacy empty value: accepted only by types that can hold it (typed and dynamic carriers alike)
+    if res.is_ok() {
+        let shape = (e.shape)(v);
+        let toks: Vec<&str> = shape.split_whitespace().collect();
+        let mut pos = 0;
+        if let Some(sh) = parse_shape(&toks, &mut pos) {
+            if empty_in_nonemptiable(ty, &sh) {
+                ctx.fail(format!("empty-accepted: an Empty value was bound to a column type that cannot hold it ({})", ty_str(ty)));
+            }
+        }
+    }
     // dynamic values: the rejection rules written from the documentation (dynfits.rs), independent of the model
     if let Some(dv) = e.dynval {
         let value = dv(v);
         let fits = dyn_fits(&value, ty);
+        // the BYTES of an accepted dynamic value: C01's independent CQL v4 encoder (harness/src/c01.rs spec_cell: e.g. a UDT
+        // value is one cell per type field, in type order, null for the fields the value does not name)
+        if res.is_ok() && fits {
+            let val = crate::c01::from_cql(&value);
+            if crate::c01::classify(ty, &val, true) == crate::c01::Dom::In {
+                if let Some(want) = crate::c01::spec_cell(ty, &val) {
+                    let wrote = &bytes_after[bytes_before.len().min(bytes_after.len())..];
+                    if wrote != want.as_slice() {
+                        ctx.fail(format!("wire-bytes: the bound CqlValue was written as {} but its CQL v4 encoding is {}", hex(wrote), hex(&want)));
+                    }
+                }
+            }
+        }
         match &res {
             Ok(()) if !fits => ctx.fail(format!(
                 "dyn-mismatch-accepted: a CqlValue that does not fit the column type was serialized (unknown UDT field / over-long tuple / wrong vector length / element of another type): {:?}",
@@ -248,6 +272,18 @@ fn vector_elements(t: &Ty, sh: &Sh, out: &mut (bool, bool)) {
             vector_elements(vt, v, out)
         }),
         _ => {}
+    }
+}
+
+/// an `Empty` (`MaybeEmpty::Empty` / `CqlValue::Empty`) sits where the column type cannot hold the legacy empty value
+/// (counter, duration, list, set, map, UDT) — at the top or anywhere below
+fn empty_in_nonemptiable(t: &Ty, sh: &Sh) -> bool {
+    match (t, sh) {
+        (_, Sh::Empty) => !supports_empty(t),
+        (Ty::Vector(e, _), Sh::Seq(items)) | (Ty::List(e), Sh::Seq(items)) | (Ty::Set(e), Sh::Seq(items)) => items.iter().any(|i| empty_in_nonemptiable(e, i)),
+        (Ty::Tuple(ts), Sh::Seq(items)) => ts.iter().zip(items).any(|(t, i)| empty_in_nonemptiable(t, i)),
+        (Ty::Map(kt, vt), Sh::Map(kvs)) => kvs.iter().any(|(k, v)| empty_in_nonemptiable(kt, k) || empty_in_nonemptiable(vt, v)),
+        _ => false,
     }
 }
 
@@ -462,12 +498,28 @@ pub fn run(case: &str, ctx: &mut Ctx) -> String {
             }
             run_ser(e, v, &ty, ctx)
         }
-        Some("deser") if segs.len() == 3 && hd.len() == 2 => {
-            let (Some(e), Some(ty)) = (entry(hd[1]), parse_ty_str(segs[2])) else { return "bad-case".to_owned() };
+        Some("deser") if segs.len() == 3 && hd.len() == 3 => {
+            let (Some(e), Ok(variant), Some(ty)) = (entry(hd[1]), hd[2].parse::<u32>(), parse_ty_str(segs[2])) else { return "bad-case".to_owned() };
             if cd_str(&e.cd) != segs[1] {
                 return "bad-case descriptor-does-not-match-the-registered-type".to_owned();
             }
-            run_deser(e, &ty, ctx)
+            run_deser(e, variant, &ty, ctx)
+        }
+        Some("deserrow") if segs.len() == 3 && hd.len() == 2 => {
+            let toks: Vec<&str> = segs[2].split_whitespace().collect();
+            let Some(n) = toks.first().and_then(|s| s.parse::<usize>().ok()) else { return "bad-case".to_owned() };
+            let mut pos = 1;
+            let mut tys = Vec::new();
+            for _ in 0..n {
+                match parse_ty(&toks, &mut pos) {
+                    Some(t) => tys.push(t),
+                    None => return "bad-case".to_owned(),
+                }
+            }
+            if pos != toks.len() || ROW_LABELS.iter().find(|(l, _)| *l == hd[1]).map(|(_, c)| *c) != Some(segs[1]) {
+                return "bad-case".to_owned();
+            }
+            run_deserrow(hd[1], &tys, ctx)
         }
         Some("tc") if segs.len() == 3 && hd.len() == 2 => {
             let (Some(e), Some(ty)) = (entry(hd[1]), parse_ty_str(segs[2])) else { return "bad-case".to_owned() };
@@ -478,6 +530,7 @@ pub fn run(case: &str, ctx: &mut Ctx) -> String {
         }
         Some("pager") => pager::run(case, ctx),
         Some("bindrow") => run_bindrow(case, ctx),
+        Some("batch") => run_batch(case, ctx),
         Some("frame") if hd.len() == 2 => run_frame(hd[1], ctx),
         Some("rows") if segs.len() == 4 && hd.len() == 2 => {
             let toks: Vec<&str> = segs[2].split_whitespace().collect();
